@@ -158,7 +158,7 @@ bool Units::UnitsImpl::isBaseUnitWithHistory(History &history, const UnitsConstP
     return (mUnits->unitCount() == 0) && standardUnitCheck;
 }
 
-bool Units::UnitsImpl::performTestWithHistory(History &history, const UnitsConstPtr &units, TestType type) const
+bool Units::UnitsImpl::performTestWithHistory(History &history, const UnitsConstPtr &units, TestType type, size_t depth) const
 {
     ModelPtr model;
     if (mUnits->isImport()) {
@@ -184,6 +184,11 @@ bool Units::UnitsImpl::performTestWithHistory(History &history, const UnitsConst
     }
 
     model = std::dynamic_pointer_cast<libcellml::Model>(mUnits->parent());
+    if ((model != nullptr) && (depth > model->unitsCount())) {
+        // A chain of unit references longer than the number of units in the model is a cycle of ordinary units:
+        // such units are not defined, but there is no unresolved import along the cycle.
+        return type == TestType::RESOLVED;
+    }
     for (size_t unitIndex = 0; unitIndex < mUnits->unitCount(); ++unitIndex) {
         std::string reference = mUnits->unitAttributeReference(unitIndex);
         if (isStandardUnitName(reference)) {
@@ -193,7 +198,7 @@ bool Units::UnitsImpl::performTestWithHistory(History &history, const UnitsConst
         if (model != nullptr) {
             auto childUnits = model->units(reference);
             if (childUnits != nullptr) {
-                if (!childUnits->pFunc()->performTestWithHistory(history, childUnits, type)) {
+                if (!childUnits->pFunc()->performTestWithHistory(history, childUnits, type, depth + 1)) {
                     return false;
                 }
             } else if (type == TestType::DEFINED) {
